@@ -1,0 +1,244 @@
+//! Verification hooks. Compiled only with `--cfg locustdb_verif`; nothing here is reachable
+//! from a normal build.
+//!
+//! * `event`     - one trace record per linearisation point (off unless a tracer is installed);
+//!                 the sequence number is drawn while the caller still holds the lock that
+//!                 protects the state change it reports.
+//! * `sync`      - named sync points: a thread reaching an armed label parks until released.
+//! * `fs_effect` - called after every primitive file-system effect of `FileBlobWriter`.
+//! * live-instance counter for `InnerLocustDB`.
+use std::collections::{HashMap, HashSet};
+use std::path::Path;
+use std::sync::atomic::{AtomicBool, AtomicI64, AtomicU64, Ordering};
+use std::sync::{Arc, Condvar, Mutex, RwLock};
+use std::time::{Duration, Instant};
+
+use serde_json::{json, Value};
+
+// ---------------------------------------------------------------------------------------------
+// trace events
+
+struct Tracer {
+    seq: u64,
+    lines: Vec<String>,
+}
+
+lazy_static! {
+    static ref TRACER: Mutex<Option<Tracer>> = Mutex::new(None);
+    static ref SYNC: (Mutex<SyncState>, Condvar) = (Mutex::new(SyncState::default()), Condvar::new());
+    static ref FS_CB: RwLock<Option<Arc<dyn Fn(&str, &Path) + Send + Sync>>> = RwLock::new(None);
+    static ref FS_LOCK: Mutex<()> = Mutex::new(());
+}
+
+static TRACING: AtomicBool = AtomicBool::new(false);
+static ANY_ARMED: AtomicBool = AtomicBool::new(false);
+static FS_CB_SET: AtomicBool = AtomicBool::new(false);
+static LIVE_INSTANCES: AtomicI64 = AtomicI64::new(0);
+static FS_EFFECTS: AtomicU64 = AtomicU64::new(0);
+
+pub fn install_tracer() {
+    let mut t = TRACER.lock().unwrap_or_else(|e| e.into_inner());
+    *t = Some(Tracer {
+        seq: 0,
+        lines: Vec::new(),
+    });
+    TRACING.store(true, Ordering::SeqCst);
+}
+
+pub fn take_trace() -> Vec<String> {
+    let mut t = TRACER.lock().unwrap_or_else(|e| e.into_inner());
+    match t.as_mut() {
+        Some(t) => std::mem::take(&mut t.lines),
+        None => vec![],
+    }
+}
+
+pub fn remove_tracer() {
+    TRACING.store(false, Ordering::SeqCst);
+    let mut t = TRACER.lock().unwrap_or_else(|e| e.into_inner());
+    *t = None;
+}
+
+#[inline]
+pub fn tracing() -> bool {
+    TRACING.load(Ordering::Relaxed)
+}
+
+/// Records one event. `fields` is evaluated only when a tracer is installed.
+pub fn event<F: FnOnce() -> Value>(name: &str, fields: F) {
+    if !tracing() {
+        return;
+    }
+    let mut v = fields();
+    let mut t = TRACER.lock().unwrap_or_else(|e| e.into_inner());
+    if let Some(t) = t.as_mut() {
+        t.seq += 1;
+        if let Value::Object(ref mut m) = v {
+            m.insert("ev".to_string(), json!(name));
+            m.insert("seq".to_string(), json!(t.seq));
+            m.insert(
+                "thread".to_string(),
+                json!(format!("{:?}", std::thread::current().id())),
+            );
+        }
+        t.lines.push(v.to_string());
+    }
+}
+
+// ---------------------------------------------------------------------------------------------
+// sync points
+
+#[derive(Default)]
+struct SyncState {
+    armed: HashSet<String>,
+    parked: HashSet<String>,
+    released: HashSet<String>,
+    reached: HashMap<String, u64>,
+}
+
+/// Arms a label: the next thread that reaches `sync(label)` parks there until `release(label)`.
+pub fn arm(label: &str) {
+    let (m, _) = &*SYNC;
+    let mut s = m.lock().unwrap_or_else(|e| e.into_inner());
+    s.armed.insert(label.to_string());
+    ANY_ARMED.store(true, Ordering::SeqCst);
+}
+
+/// Waits until some thread is parked at `label`. Returns false on timeout.
+pub fn wait_parked(label: &str, timeout: Duration) -> bool {
+    let (m, cv) = &*SYNC;
+    let deadline = Instant::now() + timeout;
+    let mut s = m.lock().unwrap_or_else(|e| e.into_inner());
+    while !s.parked.contains(label) {
+        let now = Instant::now();
+        if now >= deadline {
+            return false;
+        }
+        s = cv
+            .wait_timeout(s, deadline - now)
+            .unwrap_or_else(|e| e.into_inner())
+            .0;
+    }
+    true
+}
+
+/// Releases the thread parked at `label` (or disarms the label if nobody got there).
+pub fn release(label: &str) {
+    let (m, cv) = &*SYNC;
+    let mut s = m.lock().unwrap_or_else(|e| e.into_inner());
+    s.armed.remove(label);
+    if s.parked.contains(label) {
+        s.released.insert(label.to_string());
+    }
+    if s.armed.is_empty() {
+        ANY_ARMED.store(false, Ordering::SeqCst);
+    }
+    cv.notify_all();
+}
+
+pub fn release_all() {
+    let (m, cv) = &*SYNC;
+    let mut s = m.lock().unwrap_or_else(|e| e.into_inner());
+    s.armed.clear();
+    let parked: Vec<String> = s.parked.iter().cloned().collect();
+    for p in parked {
+        s.released.insert(p);
+    }
+    ANY_ARMED.store(false, Ordering::SeqCst);
+    cv.notify_all();
+}
+
+pub fn times_reached(label: &str) -> u64 {
+    let (m, _) = &*SYNC;
+    let s = m.lock().unwrap_or_else(|e| e.into_inner());
+    s.reached.get(label).cloned().unwrap_or(0)
+}
+
+static COUNT_REACHED: AtomicBool = AtomicBool::new(false);
+pub fn count_reached(on: bool) {
+    COUNT_REACHED.store(on, Ordering::SeqCst);
+}
+
+/// A named point in the code. No effect unless the label has been armed by a harness.
+pub fn sync(label: &str) {
+    if COUNT_REACHED.load(Ordering::Relaxed) {
+        let (m, _) = &*SYNC;
+        let mut s = m.lock().unwrap_or_else(|e| e.into_inner());
+        *s.reached.entry(label.to_string()).or_insert(0) += 1;
+    }
+    if !ANY_ARMED.load(Ordering::SeqCst) {
+        return;
+    }
+    let (m, cv) = &*SYNC;
+    let mut s = m.lock().unwrap_or_else(|e| e.into_inner());
+    if !s.armed.contains(label) {
+        return;
+    }
+    s.armed.remove(label);
+    s.parked.insert(label.to_string());
+    cv.notify_all();
+    while !s.released.contains(label) {
+        s = cv.wait(s).unwrap_or_else(|e| e.into_inner());
+    }
+    s.released.remove(label);
+    s.parked.remove(label);
+    if s.armed.is_empty() {
+        ANY_ARMED.store(false, Ordering::SeqCst);
+    }
+    cv.notify_all();
+}
+
+// ---------------------------------------------------------------------------------------------
+// file system effects
+
+/// Installs a callback invoked (under a global lock) after every primitive file-system effect.
+pub fn set_fs_callback(cb: Option<Arc<dyn Fn(&str, &Path) + Send + Sync>>) {
+    FS_CB_SET.store(cb.is_some(), Ordering::SeqCst);
+    *FS_CB.write().unwrap_or_else(|e| e.into_inner()) = cb;
+}
+
+pub fn fs_effect_count() -> u64 {
+    FS_EFFECTS.load(Ordering::SeqCst)
+}
+
+/// `op` is one of mkdir, create, write, sync, rename, remove.
+pub fn fs_effect(op: &str, path: &Path) {
+    if !tracing() && !FS_CB_SET.load(Ordering::Relaxed) {
+        return;
+    }
+    let _g = FS_LOCK.lock().unwrap_or_else(|e| e.into_inner());
+    let n = FS_EFFECTS.fetch_add(1, Ordering::SeqCst) + 1;
+    event("Fs", || json!({"op": op, "path": path.to_string_lossy(), "n": n}));
+    let cb = FS_CB.read().unwrap_or_else(|e| e.into_inner()).clone();
+    if let Some(cb) = cb {
+        cb(op, path);
+    }
+}
+
+// ---------------------------------------------------------------------------------------------
+// instances
+
+pub fn instance_created() {
+    LIVE_INSTANCES.fetch_add(1, Ordering::SeqCst);
+}
+
+pub fn instance_dropped() {
+    LIVE_INSTANCES.fetch_sub(1, Ordering::SeqCst);
+}
+
+/// Number of `InnerLocustDB` values alive. Background threads hold a reference each, so 0 means
+/// every thread of every earlier instance has exited.
+pub fn live_instances() -> i64 {
+    LIVE_INSTANCES.load(Ordering::SeqCst)
+}
+
+pub fn wait_all_stopped(timeout: Duration) -> bool {
+    let deadline = Instant::now() + timeout;
+    while live_instances() > 0 {
+        if Instant::now() >= deadline {
+            return false;
+        }
+        std::thread::sleep(Duration::from_millis(5));
+    }
+    true
+}
